@@ -1,4 +1,5 @@
 pub mod c01;
+pub mod c03;
 pub mod c09;
 pub mod c10;
 pub mod c14;
@@ -8,5 +9,5 @@ pub mod c09b;
 use crate::runner::Check;
 
 pub fn all() -> Vec<Check> {
-    vec![c01::check(), c09::check(), c10::check(), c14::check(), c17::check()]
+    vec![c01::check(), c03::check(), c09::check(), c10::check(), c14::check(), c17::check()]
 }
